@@ -98,10 +98,51 @@ def forward_jumps(prog) -> tuple[set[str], set[str]]:
     return skipped, targets
 
 
+def split_skipped(prog) -> set[str]:
+    """downstream stages an OR-split does not activate (they get SkipStage; SKIPPED is a continuable status)"""
+    out: set[str] = set()
+    for sd in prog["stages"]:
+        sp = sd.get("split") or {}
+        if not sp:
+            continue
+        down = [d["ref"] for d in prog["stages"] if sd["ref"] in d["req"]]
+        yes = [d for d in down if sp.get(d, True)]
+        if not yes and down:
+            yes = [down[0]]
+        out |= set(down) - set(yes)
+    return out
+
+
+RECORDS_OR_BRANCHES = False
+
+
+def activated_for(prog, join_ref):
+    """the _activated_branches an OR-join ends up with (None: no OR-split feeds it -> AND semantics)"""
+    # As the code is, the OR-split's handler never sees the OR-join (it works on the partial execution of
+    # retrieve_stage: the stage, its prerequisites, its children), so nothing is recorded and the join keeps its
+    # all-of rule.  (Engine.tla: OrJoinsOf / VisibleTo.)
+    if not RECORDS_OR_BRANCHES:
+        return None
+    jd = _stage(prog, join_ref)
+    got = None
+    for sd in prog["stages"]:
+        sp = sd.get("split") or {}
+        if not sp:
+            continue
+        down = [d["ref"] for d in prog["stages"] if sd["ref"] in d["req"]]
+        yes = [d for d in down if sp.get(d, True)]
+        if not yes and down:
+            yes = [down[0]]
+        if set(yes) & set(jd["req"]):
+            got = (got or set()) | set(yes)
+    return got
+
+
 def ideal(prog) -> dict:
     st: dict[str, str] = {}
     order = [s["ref"] for s in prog["stages"] if not s["parent"]]
     fwd_skipped, fwd_targets = forward_jumps(prog)
+    or_skipped = split_skipped(prog)
     # stages are listed in a topological order by construction; iterate until stable anyway
     for _ in range(len(order) + 1):
         for ref in order:
@@ -111,6 +152,12 @@ def ideal(prog) -> dict:
                 continue
             cont = [u in CONT for u in ups]
             j = sd["join"]
+            if j == "OR":      # paired OR-join: only the branches its OR-split(s) activated count
+                actv = activated_for(prog, ref)
+                if actv is not None:
+                    rel = [st.get(u) for u in sd["req"] if u in actv]
+                    cont = [u in CONT for u in rel]
+                    ups = rel
             if not ups:
                 ok = True
             elif j in ("DISCRIMINATOR", "MULTI_MERGE"):
@@ -119,7 +166,7 @@ def ideal(prog) -> dict:
                 ok = sum(cont) >= sd["thr"]
             else:
                 ok = all(cont)
-            if ref in fwd_skipped:
+            if ref in fwd_skipped or ref in or_skipped:
                 st[ref] = "SKIPPED"
             elif ref in fwd_targets:
                 st[ref] = stage_from_tasks(prog, sd)
